@@ -69,7 +69,7 @@ def build(spec) -> Built:
 
 
 VCLS_PLAIN = ["Vertex"]
-VCLS_MIX = ["Vertex", "Vertex", "VSub", "VSubSub", "FalsyVertex", "EmptyVertex", "Universe", "VBoth", "VFancy"]
+VCLS_MIX = ["Vertex", "Vertex", "VSub", "VSubSub", "FalsyVertex", "EmptyVertex", "Universe", "VBoth", "VFancy", "StrVertex"]
 ECLS_DU = ["DirectedEdge", "UnDirectedEdge", "DSub", "DSubSub", "USub", "MixEdge", "FalsyEdge", "RenamedEdge", "PosOnlyEdge"]
 ECLS_ALL = ECLS_DU + ["OtherLink", "OtherLink2", "TwoEndedLink"]
 
